@@ -87,6 +87,12 @@ func (e *env) replayReuse(bh Behaviour, r *rand.Rand) bool {
 	}
 	cur := 0
 	var lastSig []byte
+	// every signature slice handed out, exactly as returned, with a private copy taken at return time
+	type handed struct {
+		ret, cp []byte
+		key, m  int
+	}
+	var outs []handed
 	pubOf := func(k int) kyber.Point {
 		if kind == "eddsa" {
 			p := e.grp.Point()
@@ -141,6 +147,7 @@ func (e *env) replayReuse(bh Behaviour, r *rand.Rand) bool {
 				return true
 			}
 			lastSig = sg
+			outs = append(outs, handed{ret: sg, cp: clone(sg), key: k, m: m})
 			if st.str("obs") == "rfc8032-bytes" {
 				want := ed25519.Sign(refKey[k], msgs[m])
 				if !bytes.Equal(want, sg) {
@@ -169,6 +176,44 @@ func (e *env) replayReuse(bh Behaviour, r *rand.Rand) bool {
 				e.violateReuse(bh, step, "marshal/not-current-key", "MarshalBinary of a reused EdDSA object is not seed || public key of its current key",
 					map[string]any{"got": fmt.Sprintf("%x", mb), "want": fmt.Sprintf("%x", want), "err": fmt.Sprint(err)})
 			}
+		case "RAudit":
+			// returned signatures are values: later calls on the signer must not have changed them
+			want, _ := st["outs"].([]any)
+			if len(want) != len(outs) {
+				e.violateReuse(bh, step, "audit/harness", "number of signatures handed out differs from the behaviour", nil)
+				return true
+			}
+			for i, o := range outs {
+				wm, _ := want[i].(map[string]any)
+				w := Step(wm)
+				if w.num("key") != o.key || w.num("msg") != o.m {
+					e.violateReuse(bh, step, "audit/harness", "signature bookkeeping differs from the behaviour", nil)
+					return true
+				}
+				if !bytes.Equal(o.ret, o.cp) {
+					e.violateReuse(bh, step, "audit/returned-signature-changed", "a signature handed out earlier was overwritten by a later call on the same signer object",
+						map[string]any{"index": i, "of": len(outs), "returned": fmt.Sprintf("%x", o.cp), "now": fmt.Sprintf("%x", o.ret)})
+					continue
+				}
+				var err error
+				pm, stack, pan = core.Try(func() {
+					if kind == "eddsa" {
+						err = eddsa.Verify(pubOf(o.key), clone(msgs[o.m]), o.ret)
+					} else {
+						err = sch.Verify(pubOf(o.key), clone(msgs[o.m]), o.ret)
+					}
+				})
+				if pan {
+					break
+				}
+				if err != nil {
+					e.violateReuse(bh, step, "audit/rejected", "a signature handed out earlier no longer verifies for its key and message", map[string]any{"index": i})
+				}
+				if kind == "eddsa" && !bytes.Equal(o.ret, ed25519.Sign(refKey[o.key], msgs[o.m])) {
+					e.violateReuse(bh, step, "audit/not-rfc8032-bytes", "a signature handed out earlier is not the crypto/ed25519 signature of its key and message", map[string]any{"index": i})
+				}
+			}
+			e.cnt.add("reuse:audit")
 		case "RVerify":
 			sk, sm := st.num("signedkey"), st.num("signedmsg")
 			vk, vm := sk, sm
